@@ -160,7 +160,7 @@ Section Inv.
                In r (match lookup (s_ "required") kvs with Some j => jstr_list j | None => [] end)).
   Proof.
     intros Hok Hattr HI H. rewrite with_key_lookup in H. unfold props_rel.
-    destruct (lookup (s_ "properties") kvs) as [Sp|]; [|apply ret_inv in H as [<- _]; split; [reflexivity|intros r []]].
+    destruct (lookup (s_ "properties") kvs) as [Sp|]; [|apply ret_inv in H as [<- _]; split; [intros key; reflexivity|intros r []]].
     unfold parse_props in H. destruct Sp as [| | | | | |pkvs]; try (exfalso; eapply fail_inv; eauto; fail).
     binv H. apply ret_inv in H as [<- _]. cbn [dict_ok obj_vals] in *. destruct Hok as [Hnd Hall].
     pose proof (parse_assoc_inv pkvs (Forall_obj_vals _ _ HI) _ _ _ Hb) as Hs.
@@ -174,7 +174,7 @@ Section Inv.
     assert (Edict : dict_of_pairs ps = ps).
     { unfold dict_of_pairs. apply dict_of_nodup. now rewrite Ekeys. }
     rewrite Edict. split.
-    - exists ps. split; [reflexivity|]. intros key.
+    - intros key. cbn [find_by_source_o].
       destruct (lookup key pkvs) as [Sx|] eqn:El.
       + apply lookup_In in El.
         destruct (Forall2_In_r _ _ _ _ Hs El) as ([k' e] & Hin & Ek & He). cbn [fst snd] in *. subst k'.
@@ -340,15 +340,123 @@ Section Main.
   Lemma Forall2_nonempty {A C} (R : A -> C -> Prop) l l' : Forall2 R l l' -> l' <> [] -> l <> [].
   Proof. destruct 1; congruence. Qed.
 
-  Theorem parse_sim : forall S0, plain cfg S0 -> IHs S0.
+  Definition ofk (key : str) (parsed : list (str * list elem)) : list elem :=
+    match lookup key parsed with Some l => l | None => [] end.
+  Definition comp_rel (kvs : list (str * json)) (key : str) (parsed : list (str * list elem)) : Prop :=
+    match lookup key kvs with
+    | None => ofk key parsed = []
+    | Some (JArr l) => Forall2 sim (ofk key parsed) l
+    | Some _ => False
+    end.
+  Definition nots_rel (kvs : list (str * json)) (nots : list elem) : Prop :=
+    match lookup (s_ "not") kvs with
+    | Some Sn => exists en, nots = [ENot en None] /\ sim en Sn
+    | None => nots = []
+    end.
+
+  (* the element assembled by _parse_composition decides the whole node *)
+  Lemma comp_assemble kvs v base parsed nots e (st0 st1 : pstate) :
+    jwf v -> nonempty_list (lookup (s_ "anyOf") kvs) -> nonempty_list (lookup (s_ "oneOf") kvs) ->
+    omv O v base (cl_type kvs v && rest_b O w kvs v) ->
+    comp_rel kvs (s_ "allOf") parsed -> comp_rel kvs (s_ "anyOf") parsed -> comp_rel kvs (s_ "oneOf") parsed ->
+    nots_rel kvs nots ->
+    (let all_of := base :: ofk (s_ "allOf") parsed ++ [compose MOne (ofk (s_ "oneOf") parsed); compose MAny (ofk (s_ "anyOf") parsed)] ++ nots in
+     let element := compose MAll (filter (fun e0 => negb (elem_eq EElement e0)) all_of) in
+     let default := match lookup (s_ "default") kvs with Some j => Some (strip_autotitle j) | None => None end in
+     (if is_obj element then ret (EComp MAll [element] default)
+      else ret (match default with Some d => with_elem_default element (Some d) | None => element end)) st0 = POk (e, st1)) ->
+    om (B e (Some v)) (v6 O w (JObj kvs) v).
   Proof.
-    apply (plain_ind' cfg IHs).
+    intros Hv Hany Hone Hb0 Hall Hanyk Honek Hnots H. cbv zeta in H. cbn [v6].
+    unfold comp_rel in *.
+    set (allOfs := ofk (s_ "allOf") parsed) in *.
+    set (anyOfs := ofk (s_ "anyOf") parsed) in *.
+    set (oneOfs := ofk (s_ "oneOf") parsed) in *.
+    assert (Ha : exists ba, Forall2 (omv O v) allOfs ba /\
+              forallb (fun b => b) ba =
+              wkey (fun Sl => match Sl with JArr l => forallb (fun S' => F S' v) l | _ => true end) (s_ "allOf") kvs true).
+    { rewrite wkey_lookup. destruct (lookup (s_ "allOf") kvs) as [[| | | | |l|]|]; try contradiction.
+      - exists (map (fun S0 => F S0 v) l). split; [now apply Forall2_sim_omv|]. clear. induction l; simpl; congruence.
+      - rewrite Hall. exists []. split; [constructor|reflexivity]. }
+    assert (Hy : omv O v (compose MAny anyOfs)
+              (wkey (fun Sl => match Sl with JArr l => existsb (fun S' => F S' v) l | _ => true end) (s_ "anyOf") kvs true)).
+    { rewrite wkey_lookup. red in Hany. destruct (lookup (s_ "anyOf") kvs) as [[| | | | |l|]|]; try contradiction.
+      - eapply om_ext; [apply (compose_any O v anyOfs (map (fun S0 => F S0 v) l))|].
+        + eapply Forall2_nonempty; eauto. destruct l; [contradiction|discriminate].
+        + now apply Forall2_sim_omv.
+        + clear. induction l; simpl; congruence.
+      - rewrite Hanyk. unfold omv, compose. destruct (element_ok O v) as (r & ->). reflexivity. }
+    assert (Ho : omv O v (compose MOne oneOfs)
+              (wkey (fun Sl => match Sl with
+                               | JArr l => Nat.eqb (length (filter (fun S' => F S' v) l)) 1
+                               | _ => true end) (s_ "oneOf") kvs true)).
+    { rewrite wkey_lookup. red in Hone. destruct (lookup (s_ "oneOf") kvs) as [[| | | | |l|]|]; try contradiction.
+      - eapply om_ext; [apply (compose_one O v oneOfs (map (fun S0 => F S0 v) l))|].
+        + eapply Forall2_nonempty; eauto. destruct l; [contradiction|discriminate].
+        + now apply Forall2_sim_omv.
+        + now rewrite filter_map_len.
+      - rewrite Honek. unfold omv, compose. destruct (element_ok O v) as (r & ->). reflexivity. }
+    assert (Hn : exists bn, Forall2 (omv O v) nots bn /\
+              forallb (fun b => b) bn = wkey (fun Sn => negb (F Sn v)) (s_ "not") kvs true).
+    { rewrite wkey_lookup. red in Hnots.
+      destruct (lookup (s_ "not") kvs) as [Sn|].
+      - destruct Hnots as (en & -> & Hen).
+        exists [negb (F Sn v)]. split; [|cbn [forallb]; apply andb_true_r].
+        constructor; [|constructor]. unfold omv. cbn [build with_default].
+        pose proof (Hen v Hv) as Hsim.
+        destruct (B en (Some v)); simpl in *; rewrite ?Hsim; reflexivity.
+      - subst nots. exists []. split; [constructor|reflexivity]. }
+    destruct Ha as (ba & Ha1 & Ha2). destruct Hn as (bn & Hn1 & Hn2).
+    match type of Ho with omv _ _ _ ?b => set (one_b := b) in * end.
+    match type of Hy with omv _ _ _ ?b => set (any_b := b) in * end.
+    set (all_of := base :: allOfs ++ [compose MOne oneOfs; compose MAny anyOfs] ++ nots) in *.
+    assert (Hall_of : Forall2 (omv O v) all_of
+              ((cl_type kvs v && rest_b O w kvs v) :: ba ++ [one_b; any_b] ++ bn)).
+    { unfold all_of. constructor; [exact Hb0|]. apply Forall2_app; [exact Ha1|].
+      constructor; [exact Ho|]. constructor; [exact Hy|exact Hn1]. }
+    destruct (filter_elements O v _ _ Hall_of) as (bs' & Hf1 & Hf2).
+    pose proof (compose_all O v _ _ Hf1) as Hel. rewrite Hf2 in Hel.
+    set (element := compose MAll (filter (fun e0 => negb (elem_eq EElement e0)) all_of)) in *.
+    assert (Hfinal : om (B e (Some v)) (forallb (fun b => b)
+                ((cl_type kvs v && rest_b O w kvs v) :: ba ++ [one_b; any_b] ++ bn))).
+    { destruct (is_obj element).
+      - apply ret_inv in H as [<- _]. cbn [build with_default map_elems]. apply attempt_single. exact Hel.
+      - apply ret_inv in H as [<- _].
+        destruct (match lookup (s_ "default") kvs with Some j => Some (strip_autotitle j) | None => None end);
+          [rewrite with_elem_default_irrel|]; exact Hel. }
+    eapply om_ext; [exact Hfinal|].
+    cbn [forallb]. rewrite forallb_app. cbn [app forallb]. rewrite Ha2, Hn2.
+    unfold cl_comp, rest_b. fold one_b. fold any_b. clearbody one_b any_b.
+    repeat match goal with |- context [wkey ?f ?k kvs true] => generalize (wkey f k kvs true); intro end.
+    generalize (cl_type kvs v) (cl_scalar O kvs v) (cl_items F kvs v) (cl_object O w F kvs v). intros.
+    btauto.
+  Qed.
+
+  Lemma nocomp_assemble kvs v e :
+    existsb (fun kv => mem_str (fst kv) composition_keywords) kvs = false ->
+    om (B e (Some v)) (cl_type kvs v && rest_b O w kvs v) -> om (B e (Some v)) (v6 O w (JObj kvs) v).
+  Proof.
+    intros Ecomp H. eapply om_ext; [exact H|]. cbn [v6]. unfold rest_b.
+    assert (Hc : cl_comp F kvs v = true).
+    { unfold cl_comp. rewrite !wkey_lookup.
+      rewrite (existsb_keys_false composition_keywords kvs (s_ "allOf") Ecomp) by (vm_compute; tauto).
+      rewrite (existsb_keys_false composition_keywords kvs (s_ "anyOf") Ecomp) by (vm_compute; tauto).
+      rewrite (existsb_keys_false composition_keywords kvs (s_ "oneOf") Ecomp) by (vm_compute; tauto).
+      rewrite (existsb_keys_false composition_keywords kvs (s_ "not") Ecomp) by (vm_compute; tauto).
+      reflexivity. }
+    rewrite Hc. now rewrite andb_true_r, !andb_assoc.
+  Qed.
+
+  Theorem parse_sim : forall S0, plain cfg false S0 -> IHs S0.
+  Proof.
+    apply (plain_ind' cfg false IHs).
     - (* booleans *)
       intros [|] st e st' H; cbn [parse_element] in H; apply ret_inv in H as [<- _].
       + apply sim_element. reflexivity.
       + intros v _. reflexivity.
     - intros kvs Hnode _ IH st e st' H.
-      destruct Hnode as (Hnd & Hno & Hconst & Henum & Hpok & Hattr & Hppok & Hdok & Hany & Hone).
+      pose proof (type_cond_false cfg kvs Hnode) as Hno.
+      destruct Hnode as (Hnd & _ & Hconst & Henum & Hpok & Hattr & Hppok & Hdok & Hany & Hone).
       unfold subschemas in IH.
       repeat match type of IH with Forall _ (_ ++ _) => let I1 := fresh "I" in apply Forall_app in IH as [I1 IH] end.
       cbn [parse_element] in H.
@@ -368,9 +476,9 @@ Section Main.
       pose proof (fun name => waived_false kvs name Hno) as Hwv.
       set (K := kw_record kvs props items pats pnames contains deps addp addi) in *.
       pose proof (finish_plain_om O w kvs props items pats pnames contains deps addp addi
-                    Hconst Henum Ritems Raddi Rcontains Rpnames Rprops Rpats Raddp Rdeps Rreq Hwv cfg) as Hfin.
+                    Hconst Henum Ritems Raddi Rcontains Rpnames Rprops Rpats Raddp Rdeps Rreq cfg Hwv) as Hfin.
       fold K in Hfin.
-      intros v Hv. cbn [v6].
+      intros v Hv.
       destruct (existsb (fun kv => mem_str (fst kv) composition_keywords) kvs) eqn:Ecomp; cbn [negb] in H.
       + (* composition *)
         apply bind_inv in H as (base & s9 & Hbase & H). apply bind_inv in H as (parsed & s10 & Hparsed & H).
@@ -380,92 +488,24 @@ Section Main.
           - right. eexists; reflexivity.
           - apply lookup_filter_keep. vm_compute. intuition discriminate. }
         assert (Hk : forall key, In key (map s_ ["allOf"; "anyOf"; "oneOf"]) ->
-                  Forall IHs (arr_list (lookup key kvs)) ->
-                  match lookup key kvs with
-                  | None => match lookup key parsed with Some l => l | None => [] end = []
-                  | Some (JArr l) => Forall2 sim (match lookup key parsed with Some l => l | None => [] end) l
-                  | Some _ => False
-                  end).
-        { intros key Hin HI. destruct (parse_keys_lookup _ _ _ _ _ Hparsed key (Hcfg key Hin)) as (es & t1 & t2 & -> & Hsub).
+                  Forall IHs (arr_list (lookup key kvs)) -> comp_rel kvs key parsed).
+        { intros key Hin HI. unfold comp_rel, ofk.
+          destruct (parse_keys_lookup _ _ _ _ _ Hparsed key (Hcfg key Hin)) as (es & t1 & t2 & -> & Hsub).
           exact (comp_list_inv key kvs _ _ _ HI Hsub). }
-        pose proof (Hk (s_ "allOf") (or_introl eq_refl) I8) as Hall.
-        pose proof (Hk (s_ "anyOf") (or_intror (or_introl eq_refl)) I9) as Hanyk.
-        pose proof (Hk (s_ "oneOf") (or_intror (or_intror (or_introl eq_refl))) IH) as Honek.
-        clear Hk.
-        set (allOfs := match lookup (s_ "allOf") parsed with Some l => l | None => [] end) in *.
-        set (anyOfs := match lookup (s_ "anyOf") parsed with Some l => l | None => [] end) in *.
-        set (oneOfs := match lookup (s_ "oneOf") parsed with Some l => l | None => [] end) in *.
-        (* the four composition keywords, each with its boolean *)
-        assert (Ha : exists ba, Forall2 (omv O v) allOfs ba /\
-                  forallb (fun b => b) ba =
-                  wkey (fun Sl => match Sl with JArr l => forallb (fun S' => F S' v) l | _ => true end) (s_ "allOf") kvs true).
-        { rewrite wkey_lookup. destruct (lookup (s_ "allOf") kvs) as [[| | | | |l|]|]; try contradiction.
-          - exists (map (fun S0 => F S0 v) l). split; [now apply Forall2_sim_omv|]. clear. induction l; simpl; congruence.
-          - rewrite Hall. exists []. split; [constructor|reflexivity]. }
-        assert (Hy : omv O v (compose MAny anyOfs)
-                  (wkey (fun Sl => match Sl with JArr l => existsb (fun S' => F S' v) l | _ => true end) (s_ "anyOf") kvs true)).
-        { rewrite wkey_lookup. red in Hany. destruct (lookup (s_ "anyOf") kvs) as [[| | | | |l|]|]; try contradiction.
-          - eapply om_ext; [apply (compose_any O v anyOfs (map (fun S0 => F S0 v) l))|].
-            + eapply Forall2_nonempty; eauto. destruct l; [contradiction|discriminate].
-            + now apply Forall2_sim_omv.
-            + clear. induction l; simpl; congruence.
-          - rewrite Hanyk. unfold omv, compose. destruct (element_ok O v) as (r & ->). reflexivity. }
-        assert (Ho : omv O v (compose MOne oneOfs)
-                  (wkey (fun Sl => match Sl with
-                                   | JArr l => Nat.eqb (length (filter (fun S' => F S' v) l)) 1
-                                   | _ => true end) (s_ "oneOf") kvs true)).
-        { rewrite wkey_lookup. red in Hone. destruct (lookup (s_ "oneOf") kvs) as [[| | | | |l|]|]; try contradiction.
-          - eapply om_ext; [apply (compose_one O v oneOfs (map (fun S0 => F S0 v) l))|].
-            + eapply Forall2_nonempty; eauto. destruct l; [contradiction|discriminate].
-            + now apply Forall2_sim_omv.
-            + now rewrite filter_map_len.
-          - rewrite Honek. unfold omv, compose. destruct (element_ok O v) as (r & ->). reflexivity. }
-        assert (Hn : exists bn, Forall2 (omv O v) nots bn /\
-                  forallb (fun b => b) bn = wkey (fun Sn => negb (F Sn v)) (s_ "not") kvs true).
-        { rewrite with_key_lookup in Hnots. rewrite wkey_lookup.
+        assert (Hn : nots_rel kvs nots).
+        { unfold nots_rel. rewrite with_key_lookup in Hnots.
           destruct (lookup (s_ "not") kvs) as [Sn|].
           - unfold parse_not in Hnots. apply bind_inv in Hnots as (en & t1 & Hen & Hnots).
             apply ret_inv in Hnots as [<- _]. cbn [opt_list] in I4. inversion I4 as [|? ? Hi _]; subst.
-            exists [negb (F Sn v)]. split; [|cbn [forallb]; apply andb_true_r].
-            constructor; [|constructor]. unfold omv. cbn [build with_default].
-            pose proof (Hi _ _ _ Hen v Hv) as Hsim.
-            destruct (B en (Some v)); simpl in *; rewrite ?Hsim; reflexivity.
-          - apply ret_inv in Hnots as [<- _]. exists []. split; [constructor|reflexivity]. }
-        destruct Ha as (ba & Ha1 & Ha2). destruct Hn as (bn & Hn1 & Hn2).
-        match type of Ho with omv _ _ _ ?b => set (one_b := b) in * end.
-        match type of Hy with omv _ _ _ ?b => set (any_b := b) in * end.
-        set (all_of := base :: allOfs ++ [compose MOne oneOfs; compose MAny anyOfs] ++ nots) in *.
-        assert (Hall_of : Forall2 (omv O v) all_of
-                  ((cl_type kvs v && rest_b O w kvs v) :: ba ++ [one_b; any_b] ++ bn)).
-        { unfold all_of. constructor; [exact Hb0|]. apply Forall2_app; [exact Ha1|].
-          constructor; [exact Ho|]. constructor; [exact Hy|exact Hn1]. }
-        destruct (filter_elements O v _ _ Hall_of) as (bs' & Hf1 & Hf2).
-        pose proof (compose_all O v _ _ Hf1) as Hel. rewrite Hf2 in Hel.
-        set (element := compose MAll (filter (fun e0 => negb (elem_eq EElement e0)) all_of)) in *.
-        assert (Hfinal : om (B e (Some v)) (forallb (fun b => b)
-                    ((cl_type kvs v && rest_b O w kvs v) :: ba ++ [one_b; any_b] ++ bn))).
-        { destruct (is_obj element).
-          - apply ret_inv in H as [<- _]. cbn [build with_default map_elems]. apply attempt_single. exact Hel.
-          - apply ret_inv in H as [<- _].
-            destruct (match lookup (s_ "default") kvs with Some j => Some (strip_autotitle j) | None => None end);
-              [rewrite with_elem_default_irrel|]; exact Hel. }
-        eapply om_ext; [exact Hfinal|].
-        cbn [forallb]. rewrite forallb_app. cbn [app forallb]. rewrite Ha2, Hn2.
-        unfold cl_comp, rest_b. fold one_b. fold any_b. clearbody one_b any_b.
-        repeat match goal with |- context [wkey ?f ?k kvs true] => generalize (wkey f k kvs true); intro end.
-        generalize (cl_type kvs v) (cl_scalar O kvs v) (cl_items F kvs v) (cl_object O w F kvs v). intros.
-        btauto.
+            exists en. split; [reflexivity|]. eapply Hi; eauto.
+          - apply ret_inv in Hnots as [<- _]. reflexivity. }
+        eapply (comp_assemble kvs v base parsed nots e); eauto.
+        * exact (Hk (s_ "allOf") (or_introl eq_refl) I8).
+        * exact (Hk (s_ "anyOf") (or_intror (or_introl eq_refl)) I9).
+        * exact (Hk (s_ "oneOf") (or_intror (or_intror (or_introl eq_refl))) IH).
       + (* no composition keyword *)
-        eapply om_ext; [eapply (Hfin kvs K); eauto; now left|].
-        unfold rest_b.
-        assert (Hc : cl_comp F kvs v = true).
-        { unfold cl_comp. rewrite !wkey_lookup.
-          rewrite (existsb_keys_false composition_keywords kvs (s_ "allOf") Ecomp) by (vm_compute; tauto).
-          rewrite (existsb_keys_false composition_keywords kvs (s_ "anyOf") Ecomp) by (vm_compute; tauto).
-          rewrite (existsb_keys_false composition_keywords kvs (s_ "oneOf") Ecomp) by (vm_compute; tauto).
-          rewrite (existsb_keys_false composition_keywords kvs (s_ "not") Ecomp) by (vm_compute; tauto).
-          reflexivity. }
-        rewrite Hc. now rewrite andb_true_r, !andb_assoc.
+        apply nocomp_assemble; [exact Ecomp|].
+        eapply (Hfin kvs K); eauto. now left.
   Qed.
 End Main.
 
@@ -474,7 +514,7 @@ Definition comp_complete (cfg : pcfg) : Prop :=
   forall key, In key (map s_ ["allOf"; "anyOf"; "oneOf"]) -> In key (c_comp_order cfg).
 
 Theorem validity_plain cfg O w S0 st e st' :
-  w <> WAlways -> comp_complete cfg -> plain cfg S0 ->
+  w <> WAlways -> comp_complete cfg -> plain cfg false S0 ->
   parse_element cfg S0 st = POk (e, st') ->
   forall v, jwf v -> om (build O e (Some v)) (v6 O w S0 v).
 Proof. intros Hw Hc Hp H v Hv. exact (parse_sim cfg O w Hw Hc S0 Hp st e st' H v Hv). Qed.
@@ -482,7 +522,7 @@ Proof. intros Hw Hc Hp H v Hv. exact (parse_sim cfg O w Hw Hc S0 Hp st e st' H v
 Definition ncrash (o : outcome) : Prop := match o with Crash _ => False | _ => True end.
 
 Corollary accepts_iff_valid cfg O S0 st e st' :
-  comp_complete cfg -> plain cfg S0 -> parse_element cfg S0 st = POk (e, st') ->
+  comp_complete cfg -> plain cfg false S0 -> parse_element cfg S0 st = POk (e, st') ->
   forall v, jwf v -> ncrash (build O e (Some v)) ->
   accepts O e v = valid6 O S0 v /\ accepts O e v = valid6_strict O S0 v /\
   (build O e (Some v) = Rej <-> valid6 O S0 v = false).
